@@ -1,5 +1,28 @@
 import QM.Extract
+import QM.EscLemmas
 namespace P
+
+theorem implSep_sound : ∀ c ∈ Gen.whitespace, isSep c = true := by decide
+theorem implSep_complete : ∀ c ∈ [' ', '\t', '\n', '\r'], Gen.whitespace.contains c = true := by decide
+/-- the code's separator set is systemd's WHITESPACE -/
+@[simp] theorem implSep_eq (c : Char) : implSep c = isSep c := by
+  unfold implSep
+  cases h : isSep c with
+  | true =>
+    apply implSep_complete
+    simp only [isSep, Bool.or_eq_true, beq_iff_eq] at h
+    rcases h with ((h | h) | h) | h <;> subst h <;> simp
+  | false =>
+    cases h2 : Gen.whitespace.contains c with
+    | false => rfl
+    | true =>
+      have := implSep_sound c (by simpa using h2)
+      rw [h] at this; exact absurd this (by simp)
+@[simp] theorem implDropSeps_eq (s : Str) : implDropSeps s = dropSeps s := by
+  induction s with
+  | nil => rfl
+  | cons c r ih => simp [implDropSeps, dropSeps, ih]
+
 
 theorem impl_word_of_spec (q bs acc s w rest)
     (h : Spec.word argFlags q bs acc s = .word w rest) : Impl.word q bs acc s = .word w rest := by
